@@ -49,6 +49,11 @@ fn main() {
         "chan" => chan::run(args.get(2).map(|s| s.as_str()).unwrap_or("thread")),
         "agent" => chan::agent_main(&args[2]),
         "lsfd" => chan::lsfd_main(),
+        // an unrelated child that holds whatever it inherited until it is killed
+        "idle" => {
+            println!("r");
+            std::thread::sleep(std::time::Duration::from_secs(120))
+        },
         "script" => script::run(),
         "router" => routerrole::run(),
         "oneshot" => match args.get(2).map(|s| s.as_str()).unwrap_or("thread") {
